@@ -291,6 +291,67 @@ fn run_set<S: PS>(ctx: &Ctx) -> Acc {
         }
         acc.count("inv_ntt_constant_sweep_values", cs.len() as u64);
     }
+    // ---- forward NTT (and to_mont of its output) on constant / two-valued coefficient vectors over the
+    // call-site input range |x| <= gamma1 (y, z), 2^12 (t0), 1023 (t1), eta (s1, s2), 1 (c)
+    if S::SET == 87 || ctx.sets.len() == 1 {
+        let mut cs: Vec<i64> = Vec::new();
+        for e in 0..20 {
+            for d in -1i64..=1 {
+                cs.push((1i64 << e) + d);
+                cs.push(-(1i64 << e) + d);
+            }
+        }
+        for v in [0i64, 2, 4, 1023, 4095, 4096, (1 << 17) - 78, (1 << 19) - 196, (1 << 19) - 120] {
+            cs.push(v);
+            cs.push(-v);
+        }
+        let mut g = Prng::derive(ctx.seed, "c18-ntt-const", 0);
+        for _ in 0..2000 {
+            cs.push(g.range(-(1 << 19) + 1, 1 << 19));
+        }
+        cs.retain(|c| *c > -(1 << 19) && *c <= (1 << 19));
+        cs.sort_unstable();
+        cs.dedup();
+        let accs = par_map(64, |ch| {
+            let mut a = Acc::new();
+            for (idx, &c) in cs.iter().enumerate() {
+                if idx % 64 != ch {
+                    continue;
+                }
+                for pat in 0..4usize {
+                    a.eval();
+                    let inp: P = core::array::from_fn(|i| match pat {
+                        0 => c as i32,
+                        1 => if i < 128 { c as i32 } else { -(c as i32) },
+                        2 => if i % 2 == 0 { c as i32 } else { -(c as i32) },
+                        _ => if (i / 2) % 2 == 0 { c as i32 } else { 0 },
+                    });
+                    let want = r::ntt(&to_i64(&inp));
+                    let shape = ["ntt-constant", "ntt-halves", "ntt-alternating", "ntt-pairs"][pat];
+                    let replay = || json!({"kind":"c18-ntt-const","c":c,"pattern":pat});
+                    match guarded(|| { let h = hk::ntt::<1>(&[inp]); let m = hk::to_mont::<1>(&h); (h[0], m[0]) }) {
+                        Err(pi) => panic_violation(&mut a, "C18", "ntt/to_mont", shape, &pi, replay()),
+                        Ok((got, mont)) => {
+                            let two32 = (1i64 << 32) % Q;
+                            let bad = (0..256).find(|&n| i64::from(got[n]).rem_euclid(Q) != want[n] || i64::from(got[n]).abs() >= 67_058_539
+                                || i64::from(mont[n]).rem_euclid(Q) != want[n] * two32 % Q);
+                            match bad {
+                                Some(n) => a.violation(&format!("C18|ntt-wrong|{shape}"), format!("forward NTT slot {n}: got {} (mont {}), want {} mod q, or outside the to_mont input range", got[n], mont[n], want[n]), replay()),
+                                None => {
+                                    a.count(&format!("ok_{shape}"), 1);
+                                    a.nontrivial(digest64(&[shape.as_bytes(), &c.to_le_bytes()]));
+                                }
+                            }
+                        }
+                    }
+                }
+            }
+            a
+        });
+        for a in accs {
+            acc.merge(a);
+        }
+    }
     // ---- mat_vec_mul with arbitrary (not ExpandA-derived) matrix entries: all slots equal ---------------
     {
         let n_pairs = ctx.budget(6_000, 200_000) as usize;
